@@ -146,6 +146,7 @@ func runC15(c *core.Ctx) {
 	c15Node(x)
 	c15Rank(x)
 	c15Sticky(x)
+	x.eofLaunder()
 	c15Dictionary(x)
 	lx := &c14x{c, newG(c, "./lib/rac")}
 	lx.leafAssign()
@@ -788,6 +789,37 @@ func (x *c15x) rootFields(sites []c15LoadSite) {
 			k.mustPass("V.root.load", anchor,
 				"the root node's location is recorded only after ChunkReader.load of that location",
 				fl, core.Query{Exit: isStore, Events: []core.Event{core.CallEvent(c15CallIs(site.call))}})
+			// The specification's "Root Node COffMax must equal CFileSize": it is
+			// what bounds every descendant's compressed range by the file size
+			// (V.parentchild.coffmax carries it down), whichever end of the file
+			// the root was found at.
+			cmax := func(e ast.Expr) bool { return c15DenotesAll(fl, e, x.accessor(fl, "cPtrMax")) }
+			csize := func(e ast.Expr) bool { return c15RecvField(fl, c15Strip(info, e), x.fCSize) }
+			eqAtom := func(a ast.Expr, want token.Token) bool {
+				l, r, op, ok := c15Cmp(a)
+				return ok && op == want && ((cmax(l) && csize(r)) || (cmax(r) && csize(l)))
+			}
+			k.mustPass("V.root.coffmax", anchor,
+				"the root node's location is recorded only past a test that its COffMax equals CompressedSize (currNode.cPtrMax() != r.CompressedSize rejects), for a root found at either end of the file",
+				fl, core.Query{Exit: isStore, Events: []core.Event{{Edge: func(cond ast.Expr, ci *core.CondInfo, taken bool) bool {
+					if ci != nil && ci.Kind == "tagswitch" {
+						return false
+					}
+					if taken {
+						for _, a := range flattenAnd(cond) {
+							if eqAtom(a, token.EQL) {
+								return true
+							}
+						}
+						return false
+					}
+					for _, a := range flattenOr(cond) {
+						if eqAtom(a, token.NEQ) {
+							return true
+						}
+					}
+					return false
+				}}}})
 			// Same variable as handed to load, not reassigned in between.
 			av := c15LocalVar(fl, site.call.Args[argIx])
 			rv := c15LocalVar(fl, as.Rhs[0])
